@@ -406,6 +406,7 @@ fn main() {
             branch: Default::default(),
             hsize: 0,
             halign: 0,
+            ma_override: None,
             up,
             ga,
             de,
